@@ -8,10 +8,14 @@
 #include "vx.h"
 #include "vx_open.h"
 #include <xercesc/internal/IGXMLScanner.hpp>
+#include <xercesc/internal/DGXMLScanner.hpp>
 #include <xercesc/internal/XMLReader.hpp>
 #include <xercesc/framework/XMLAttDef.hpp>
 #include <xercesc/framework/XMLBuffer.hpp>
 #include "vx_close.h"
+#ifndef SCANNER
+#define SCANNER IGXMLScanner      // -DSCANNER=DGXMLScanner: the DTD-only scanner has its own copy of scanAttValue
+#endif
 #define VX_STUB_XMLEXCEPTION
 #define VX_STUB_XMEMORY
 #define VX_STUB_NUMTOTEXT
@@ -32,15 +36,15 @@ extern "C" int vx_scanEntityRef(void*, bool, XMLCh* first, XMLCh* second, bool* 
   if (!vx_ent_ok || vx_pos >= N || vx_in[vx_pos] == 0) return XMLScanner::EntityExp_Failed;
   *first = vx_in[vx_pos++]; *escaped = true; return XMLScanner::EntityExp_Returned;
 }
-typedef XMLScanner::EntityExpRes (IGXMLScanner::*VxSE)(const bool, XMLCh&, XMLCh&, bool&);
-extern "C" { extern const VxSE vx_vslot_vx_scanEntityRef; __attribute__((used)) const VxSE vx_vslot_vx_scanEntityRef = &IGXMLScanner::scanEntityRef; }
+typedef XMLScanner::EntityExpRes (SCANNER::*VxSE)(const bool, XMLCh&, XMLCh&, bool&);
+extern "C" { extern const VxSE vx_vslot_vx_scanEntityRef; __attribute__((used)) const VxSE vx_vslot_vx_scanEntityRef = &SCANNER::scanEntityRef; }
 static void* vx_scvt[120];
 static bool ws(XMLCh c) { return c == 0x20 || c == 0x9 || c == 0xA || c == 0xD; }
 static bool xmlchar(XMLCh c) { return c == 0x9 || c == 0xA || c == 0xD || (c >= 0x20 && c <= 0xD7FF) || (c >= 0xE000 && c <= 0xFFFD); }
 extern "C" void harness_attscan(void) {
   VxMMFixed<64> mm;
-  static VxRaw<IGXMLScanner> sr; IGXMLScanner* sc = &sr.obj; sc->fMemoryManager = &mm; sc->fStandalone = false; sc->fValidate = false; sc->fValidator = 0;
-  { VxSE pmf = &IGXMLScanner::scanEntityRef; unsigned long off; memcpy(&off, &pmf, sizeof off); vx_scvt[2 + (off - 1) / 8] = (void*)&vx_scanEntityRef; *(void***)sc = &vx_scvt[2]; }
+  static VxRaw<SCANNER> sr; SCANNER* sc = &sr.obj; sc->fMemoryManager = &mm; sc->fStandalone = false; sc->fValidate = false; sc->fValidator = 0;
+  { VxSE pmf = &SCANNER::scanEntityRef; unsigned long off; memcpy(&off, &pmf, sizeof off); vx_scvt[2 + (off - 1) / 8] = (void*)&vx_scanEntityRef; *(void***)sc = &vx_scvt[2]; }
   static VxRaw<XMLReader> rr; XMLReader* rd = &rr.obj; rd->fgCharCharsTable = XMLChar1_0::fgCharCharsTable1_0; rd->fXMLVersion = XMLReader::XMLV1_0;
   sc->fReaderMgr.fCurReader = rd;
   for (int i = 0; i < N; i++) vx_in[i] = nondet_u16(); vx_in[N] = 0;
@@ -52,7 +56,7 @@ extern "C" void harness_attscan(void) {
   static const XMLCh nm[] = { 'a', 0 };
   XMLBuffer out(16, &mm);
   bool threw = false, ok = false;
-  try { ok = sc->IGXMLScanner::scanAttValue(haveDef ? &def : 0, nm, out); } catch (const XMLException&) { threw = true; }
+  try { ok = sc->SCANNER::scanAttValue(haveDef ? &def : 0, nm, out); } catch (const XMLException&) { threw = true; }
   // ---- reference
   XMLCh q = vx_in[0]; bool quoted = q == '"' || q == '\'';
   bool closed = false, eof = false, bad = false, lead = false, pend = false; XMLCh ref[N + 1]; XMLSize_t rn = 0;
